@@ -83,9 +83,9 @@ theorem tanalyze (d : Gen.D) (t : TableName) (p : Option (List Expr)) (fc cm ns 
 theorem tshow_columns (d : Gen.D) (fr : List FromTable) (wh : Option Expr) (hs : FragRest d (.showColumns fr wh) = true)
     (rest : List Tok) (hr : stopsAny d rest = true) (fuel : Nat) (hfuel : 20 * sizeL (toksShowColumns d fr wh) + 16 ≤ fuel) :
     pStatement d fuel (toksShowColumns d fr wh ++ rest) = .ok (.showColumns fr wh, rest) := tstatement_rest d _ hs rest hr fuel hfuel
-theorem tcreate_table_as (d : Gen.D) (t : TableName) (q : Query) (hs : FragRest d (.createTableAs t q) = true)
-    (rest : List Tok) (hr : stopsAny d rest = true) (fuel : Nat) (hfuel : 20 * sizeL (toksCreateAs d t q) + 16 ≤ fuel) :
-    pStatement d fuel (toksCreateAs d t q ++ rest) = .ok (.createTableAs t q, rest) := tstatement_rest d _ hs rest hr fuel hfuel
+theorem tcreate_table_as (d : Gen.D) (t : TableName) (ine : Bool) (q : Query) (hs : FragRest d (.createTableAs t ine q) = true)
+    (rest : List Tok) (hr : stopsAny d rest = true) (fuel : Nat) (hfuel : 20 * sizeL (toksCreateAs d t ine q) + 16 ≤ fuel) :
+    pStatement d fuel (toksCreateAs d t ine q ++ rest) = .ok (.createTableAs t ine q, rest) := tstatement_rest d _ hs rest hr fuel hfuel
 
 /-! ### slots -/
 def alterOpsOf : Stmt → List AlterOp
@@ -272,10 +272,10 @@ def an3 : Stmt := .analyze (tn "t" (some "s")) (some [col "dt"]) false false tru
 def an4 : Stmt := .analyze (tn "t") none true false false
 def sc1 : Stmt := .showColumns [tb "t", .mk (.table (some "s") "u") (some "x")] (some (eqp "a" "1"))
 def sc2 : Stmt := .showColumns [tb "t"] none
-def ca1 : Stmt := .createTableAs (tn "t" (some "s")) q2w2
-def ca2 : Stmt := .createTableAs (tn "t") q3
+def ca1 : Stmt := .createTableAs (tn "t" (some "s")) true q2w2
+def ca2 : Stmt := .createTableAs (tn "t") false q3
 /-- `CREATE TABLE t AS WITH x AS (…), y AS (…) SELECT … UNION ALL SELECT …` -/
-def ca3 : Stmt := match C03.Dml.w1 with | .select q => .createTableAs (tn "t") q | s => s
+def ca3 : Stmt := match C03.Dml.w1 with | .select q => .createTableAs (tn "t") false q | s => s
 -- every new class in MYSQL and HIVE
 #guard [a1, a3, dr1, dr2, tr1, ms1, us1, us2, st1, st2, st3, st4, an2, sc1, sc2, ca1, ca2, ca3, .showDatabases, .showTables].all (agreesAny .MYSQL) &&
   [a2, a3, dr1, dr2, tr1, ms1, us1, us2, st1, st2, st3, st4, an1, an2, an3, an4, sc1, sc2, ca1, ca2, ca3, .showDatabases, .showTables].all (agreesAny .HIVE)
@@ -295,7 +295,7 @@ def l2 : Stmt := .update (some []) (tn "t") [("a", .cast (col "b") false "DECIMA
 def l3 : Stmt := .delete (tn "t") (some (.compare "EQ" (.index (col "m") (lit "'k'")) (lit "1"))) none none
 def l4 : Stmt := .select (.single (.mk (some [.mk "x" q2w2, .mk "y" q2w3]) false [(.wildcard none, none)] (some [tb "x"]) [] [] none none none none none none none none))
 def l5 : Stmt := .insertValues (C03.Dml.ih "INSERT_OVERWRITE" (tn "t") (some [eqp "dt" "'1'"])) [[.cast (lit "1") true "INT" none, lit "2"]]
-def l6 : Stmt := .createTableAs (tn "t") (match l4 with | .select q => q | _ => qa)
+def l6 : Stmt := .createTableAs (tn "t") true (match l4 with | .select q => q | _ => qa)
 #guard [l1, l2].all (agreesAny .MYSQL) && [l1, l2, l3, l4, l5, l6].all (agreesAny .HIVE) && [l1, l2, l3, l4, l5, l6].all (roundTripsAny .HIVE) &&
   [l1, l2, l3, l4, l5, l6].all (roundTripsAny .MYSQL) && !TDM.FragStmt .HIVE l1 && !TDM.FragStmt .HIVE l2 && !TDM.FragStmt .HIVE l4
 -- what may follow a statement of the union: the end, a `;`; nothing else
@@ -332,7 +332,7 @@ def k1 : Stmt := .alter (tn "t") [.add (.col { name := "a", type := ⟨"int", no
 def k2 : Stmt := .dropTable true (tn "t")
 def k3 : Stmt := .analyze (tn "t") (some [eqp "dt" "'1'"]) true false true
 def k4 : Stmt := .showColumns [tb "t"] (some (eqp "a" "1"))
-def k5 : Stmt := .createTableAs (tn "t") qa
+def k5 : Stmt := .createTableAs (tn "t") true qa
 set_option maxRecDepth 100000 in
 example : pStatement .HIVE (fuelFor (toksAny .HIVE k1 ++ lexed "; x")) (toksAny .HIVE k1 ++ lexed "; x") = .ok (k1, lexed "; x") :=
   tstatement_any_entry_fuel .HIVE k1 (by decide) _ (by decide)
